@@ -13,12 +13,21 @@ prop("C13", pkg="c13",
           "variant (thriftspec.Dialect) so that all other clauses stay compared, and every case whose bytes depend on it is counted in excluded_known. Of the seven "
           "deviations found six are repaired in /repo (listed fixed, compared against the unmodified specification, witnesses run as regression cases); only "
           "KF-C13-005 (binary type ids) is still known and normalised. "
+          "Thorough tier only: a native go fuzzing campaign FuzzThriftSpecDiff(data) of 60 s on 16 workers: data[0] selects the protocol and one of 8 static target struct types "
+          "(all scalar types; nested lists/sets/maps; nested, pointer-to and recursive structs and containers of structs; required/optional/enum; unions; sparse ids up to "
+          "32767; embedding chains; 70 fields), the rest is decoded by thriftspec in strict mode (shortest-form varints, bool bytes 0/1, element type BOOL = 2 only) and "
+          "matched against the target's schema; if it is a conformant encoding of a value of that type (no repeated ids/keys, no NaN keys, required fields present, enums "
+          "in range, at most one union member) Unmarshal must accept it and yield that value, and Marshal of the result must be a specification encoding of its content; "
+          "otherwise only no panic and <= 64 MiB allocated. Seeds: canonical and long-form/reordered thriftspec encodings of 3 generated values per (target, protocol) plus "
+          "hostile sizes, type bytes and ids (173 inputs, also run in both tiers as TestFuzzSpecSeeds, where the KF-C13-005 exclusions are counted). "
           "Non-trivial = content with >= 1 container or >= 3 fields, or a sequence of >= 3 items; distinct = FNV-64 of the serialised case.",
      quick=dict(shards=16, scale=1, timeout=600),
      thorough=dict(shards=16, scale=3, timeout=3000),
+     fuzz=[("FuzzThriftSpecDiff", 60)],
      technique="differential property-based testing (rapid) against a transcription of the Apache Thrift binary and compact protocol specifications "
-               "(encoder and decoder written in the harness, not sharing code with the library)",
-     level_text="Exploration: ~0.8 M cases per quick run (~2.4 M thorough); Writer and Marshal output must equal the specification's bytes and every generated conformant alternative "
+               "(encoder and decoder written in the harness, not sharing code with the library); coverage-guided native go fuzzing of Unmarshal/Marshal against "
+               "the reference decoder in the thorough tier",
+     level_text="Exploration: ~0.8 M cases per quick run (~2.4 M thorough plus a 60 s native fuzzing campaign, ~2 M execs); Writer and Marshal output must equal the specification's bytes and every generated conformant alternative "
                 "encoding must be read back to the same content by the Reader methods and by Unmarshal. Deviations already listed are normalised clause by clause and "
                 "counted; any other byte difference is reported with the shrunk content tree, observed and expected bytes.",
      level_note="Trusted base: harness/thriftspec, my reading of thrift-binary-protocol.md and thrift-compact-protocol.md, limited to the clauses the property statement "
